@@ -165,8 +165,26 @@ def run(ctx, res):
             st.compared += 1
             if (ans == "accepted") != accepted:
                 res.disagree("archive_names", case, ans, status)
+            # the same name through --create, against the model of run() (the action behind the check of the name): same verdict, and a
+            # refused name leaves nothing behind
+            d2 = ctx.fresh_dir()
+            with open(os.path.join(d2, "b.dat"), "wb") as f:
+                f.write(b"data")
+            os.makedirs(os.path.dirname(os.path.join(d2, n)) or d2, exist_ok=True)
+            before2 = P.tree(d2)
+            status_c, _ = run_cli(D.cli(fl).run, ["-c", n, "b.dat"], cwd=d2)
+            after2 = P.tree(d2)
+            blobs = D.Blobs(ctx)
+            mo = D.parse_disk_outcome(drv([D.model_create(blobs, fl, False, n, ["b.dat"], [("b.dat", b"data")])])[0])
+            if mo is not None:
+                st.compared += 1
+                if (mo["status"] == "ok0") != (status_c == "ok0") or bool(mo["writes"]) != (after2 != before2):
+                    res.disagree("archive_names", dict(case, action="create"), {"status": mo["status"], "wrote": bool(mo["writes"])}, {"status": status_c, "changed": after2 != before2})
             base = n.rsplit(".", 1)
             want = len(base) == 2 and base[1].lower() == fl
+            if not want and (status_c == "ok0" or after2 != before2):
+                res.violate("archive_names", "a creation under a wrong archive name succeeded or left something behind", dict(case, action="create"),
+                            {"status": status_c, "changed": sorted(set(after2) ^ set(before2))[:4]}, {"clause": "archive_name_create"})
             if want != accepted:
                 res.violate("archive_names", "an archive name with the wrong extension is accepted (or a right one refused)", case, status, {"clause": "archive_name"})
 
